@@ -112,6 +112,8 @@ static int out_fd = -1;
 static __thread void *vw_pending;
 static __thread int vw_size;
 static __thread unsigned char vw_old[16];
+static __thread bool vw_buffer;  // this volatile store was chosen to stay in the store buffer
+static void vw_capture_buffered();  // moves the just-executed store into the store buffer (defined with the buffer)
 static unsigned long own_mods_any[MAXT];
 static inline void mod()
 {
@@ -136,9 +138,12 @@ static inline void mod_at(const volatile void *a)
 static inline void vw_flush()
 {
   if (vw_pending) {
-    if (memcmp(vw_old, vw_pending, vw_size) != 0)
+    if (vw_buffer)
+      vw_capture_buffered();
+    else if (memcmp(vw_old, vw_pending, vw_size) != 0)
       mod_at(vw_pending);
     vw_pending = nullptr;
+    vw_buffer = false;
   }
 }
 
@@ -374,6 +379,31 @@ static bool sb_forward(uintptr_t a, int size, uint64_t *out)
   return false;
 }
 
+// A volatile store cannot be intercepted (the compiler's hook runs BEFORE the store instruction and
+// does not see the value), but it can be taken back: the storing thread keeps the token from the hook
+// until its next scheduling point, so nobody has seen the new value yet.  At that point the value is
+// read from memory, moved into the thread's store buffer, and the old bytes are restored - which is
+// indistinguishable, for every other thread, from the store still sitting in a hardware store buffer.
+static bool tso_volatile = false;
+static uint64_t TH[MAXT];
+static inline uint64_t mix64(uint64_t h, uint64_t v);
+static void vw_capture_buffered()
+{
+  SbEntry e;
+  e.addr = (uintptr_t)vw_pending;
+  e.size = vw_size;
+  e.val = 0;
+  memcpy(&e.val, vw_pending, vw_size);
+  if (memcmp(vw_old, vw_pending, vw_size) == 0)
+    return;  // a store of the value already there: nothing to hold back
+  memcpy(vw_pending, vw_old, vw_size);
+  e.pub = Cth[me];
+  Cth[me].c[me]++;
+  own_mods_any[me]++;
+  TH[me] = mix64(TH[me], 0x6275666665726564ull ^ e.addr ^ e.val);
+  SB[me].push_back(e);
+}
+
 static void plain(uintptr_t a, long n, bool wr, void *pc)
 {
   if (!det_on || me < 0 || in_rt)
@@ -428,7 +458,6 @@ static void clear_shadow(uintptr_t a, size_t n)
 // (operation, clock) pairs, so equal per-thread hashes mean equal partial orders.
 // =========================================================================================
 static VC DC[MAXT];
-static uint64_t TH[MAXT];
 static std::unordered_map<uintptr_t, VC> *depobj;
 static std::vector<uint64_t> shash;  // state hash at each recorded choice point
 
@@ -774,17 +803,32 @@ void __tsan_vptr_update(void **a, void *)
   void __tsan_volatile_read##n(void *a)                                        \
   {                                                                            \
     point_read("volatile-load", a, __builtin_return_address(0));               \
+    if (active && me >= 0 && !in_rt && !SB[me].empty()) {                      \
+      RtGuard g;                                                               \
+      for (auto &e : SB[me])                                                   \
+        if ((uintptr_t)a < e.addr + e.size && e.addr < (uintptr_t)a + n) {     \
+          sb_flush(); /* the machine load that follows must see the thread's own store */ \
+          break;                                                               \
+        }                                                                      \
+    }                                                                          \
     HB_LOAD(a);                                                                \
   }                                                                            \
   void __tsan_volatile_write##n(void *a)                                       \
   {                                                                            \
     point("volatile-store", a);                                                \
-    HB_STORE(a);                                                               \
     if (active && me >= 0 && !in_rt) {                                         \
       vw_pending = a;                                                          \
       vw_size = n;                                                             \
       memcpy(vw_old, a, n);                                                    \
+      vw_buffer = false;                                                       \
+      if (tso_volatile && n <= 8 && det_on && nthreads > 1) {                  \
+        RtGuard g;                                                             \
+        pending_op_name = "store-buffer?";                                     \
+        vw_buffer = choose(2, 2) == 1;                                         \
+      }                                                                        \
     }                                                                          \
+    if (!vw_buffer)                                                            \
+      HB_STORE(a);                                                             \
   }                                                                            \
   void __tsan_unaligned_volatile_read##n(void *a)                              \
   {                                                                            \
@@ -944,6 +988,8 @@ AT(32, uint32_t)
 AT(64, uint64_t)
 void __tsan_atomic_thread_fence(int mo)
 {
+  if (mo == 5)
+    point("fence", nullptr);  // a seq_cst fence is a visible operation and drains the store buffer
   if (det_on && me >= 0 && !in_rt) {
     RtGuard g;
     hb_fence(mo);
@@ -1976,6 +2022,8 @@ int main(int argc, char **argv)
       bound_override = atoi(argv[++i]);
     else if (a == "--workers" && i + 1 < argc)
       nworkers = atoi(argv[++i]);
+    else if (a == "--tso-volatile")
+      tso_volatile = true;
     else if (a == "--no-tso")
       tso_on = false;
     else if (a == "--no-state-cache")
